@@ -399,6 +399,35 @@ def struct_val(prog, adt_key, fields=None, default=None):
     return Val("adt", vals, (adt_key, prog.adt(adt_key)["variants"][0]["name"]))
 
 
+def success_model(body, overrides=None):
+    """call model for `success-path traces` of (async) functions: awaited futures complete (Poll::Ready), fallible calls
+    succeed (Ok(unknown)); `overrides(cs, args)` is consulted first. Used to extract the ORDER of effects on the success
+    path under chosen values of the few flags that select it (e.g. file exists / file type)."""
+    def model(cs, args):
+        if overrides is not None:
+            r = overrides(cs, args)
+            if r is not None:
+                return r
+        if cs.fn == "core::future::future::Future::poll":
+            return Val("adt", [Val("adt", [Val("unknown", "ret:%s" % cs.res)], ("core::result::Result", "Ok"))], ("core::task::poll::Poll", "Ready")) \
+                if _dest_is(body, cs, "Poll<core::result::Result<") else Val("adt", [Val("unknown", "ret:%s" % cs.res)], ("core::task::poll::Poll", "Ready"))
+        if cs.fn in ("core::result::Result::map_err", "core::result::Result::map") and args:
+            return args[0]
+        if cs.fn in ("core::future::into_future::IntoFuture::into_future", "core::pin::Pin::new_unchecked") and args:
+            return args[0]
+        if cs.dest is not None and _dest_is(body, cs, "core::result::Result<"):
+            return Val("adt", [Val("unknown", "ret:%s" % cs.name)], ("core::result::Result", "Ok"))
+        return None
+    return model
+
+
+def _dest_is(body, cs, prefix):
+    try:
+        return body.local_ty(cs.dest["l"]).startswith("core::task::poll::" + prefix) or body.local_ty(cs.dest["l"]).startswith(prefix)
+    except Exception:
+        return False
+
+
 def enum_table(prog, body, adt_key, param_local=1, by_ref=True, call_model=None):
     """evaluate `body` for every variant of the fieldless enum `adt_key` given as parameter: {variant: Result}"""
     out = {}
